@@ -23,9 +23,9 @@ import (
 func TestVerifC04(t *testing.T) {
 	vfMain(t, vfCheck{
 		ID: "C04", Level: "fault_enumeration",
-		Rule:        "12 scenarios (N concurrent single calls; one read call served by several short replies; concurrent and sequential ReadAt / WriteTo / WriteAt / ReadFrom mid-transfer; callers that keep issuing requests; raw dispatchRequest ledger) x fault kinds {server->client stream EOF at byte n, error at byte n (a transport error, and io.ErrClosedPipe), k-th client->server Write call fails with the connection reset, k-th Write fails one-sided}; quick: every reply-frame boundary +-1 and a seeded 12% of the interior offsets, thorough: every offset 0..T (streams longer than 2500 bytes: every offset of the first 1200 bytes and a seeded stride after) and every write index. A class is (scenario, fault kind, position bucket); non-trivial when calls were in flight at the moment of the fault.",
+		Rule:        "12 scenarios (N concurrent single calls; one read call served by several short replies; concurrent and sequential ReadAt / WriteTo / WriteAt / ReadFrom mid-transfer; callers that keep issuing requests; raw dispatchRequest ledger) x fault kinds {server->client stream EOF at byte n, error at byte n (a transport error, and io.ErrClosedPipe), k-th client->server Write call fails with the connection reset, k-th Write fails one-sided, also on a transport whose Close leaves the reply stream open}; quick: every reply-frame boundary +-1 and a seeded 12% of the interior offsets, thorough: every offset 0..T (streams longer than 2500 bytes: every offset of the first 1200 bytes and a seeded stride after) and every write index. A class is (scenario, fault kind, position bucket); non-trivial when calls were in flight at the moment of the fault.",
 		Assumptions: []string{"'bounded time' is decided as 'no stuck state' (every goroutine parked with nothing able to wake it), not as a latency bound", "the peer is scripted, so which replies were completely delivered before byte n is known exactly", "race detector on"},
-		Units:       func(tier vfTier, seed uint64) int { return 12 * 8 },
+		Units:       func(tier vfTier, seed uint64) int { return 12 * 9 },
 		Shards: func(tier vfTier) int {
 			// 13: coprime with the 12 scenarios, so that the eight units of one (slow) scenario do not all land in one child
 			return 13
@@ -314,6 +314,11 @@ func c04RunOnce(u *vfUnit, sc c04Scenario, fault *c04Fault, hookSeed uint64) c04
 			})
 		case "c2s-writefail":
 			ctl.FailWrite(vfC2S, int(fault.pos), errVfCut, onCut)
+		case "c2s-writefail-reader-survives":
+			// two independent one-way streams: the request stream fails, and closing the transport afterwards does
+			// not end the reply stream (the peer does not hang up either until the very end)
+			ce.keepReadOnClose = true
+			ctl.FailWrite(vfC2S, int(fault.pos), errVfCut, onCut)
 		}
 	}
 	// ledger: requests issued through the package's own dispatch entry with harness-owned channels
@@ -370,7 +375,7 @@ func c04RunOnce(u *vfUnit, sc c04Scenario, fault *c04Fault, hookSeed uint64) c04
 			peer.Stop()
 			return obs
 		}
-		if fault.kind != "c2s-writefail" && fault.kind != "c2s-writefail-ioEOF" {
+		if fault.kind != "c2s-writefail" && fault.kind != "c2s-writefail-ioEOF" && fault.kind != "c2s-writefail-reader-survives" {
 			// (with a one-sided write failure the read side of the transport is still alive:
 			// Wait legitimately blocks until Close)
 			wdone := vfGo(func() { c.Wait() })
@@ -384,8 +389,8 @@ func c04RunOnce(u *vfUnit, sc c04Scenario, fault *c04Fault, hookSeed uint64) c04
 	}
 	cdone := vfGo(func() { c.Close() })
 	peerStopped := false
-	if fault == nil {
-		// clean shutdown: the peer goes away first
+	if fault == nil || fault.kind == "c2s-writefail-reader-survives" {
+		// clean shutdown (or a reply stream that only the peer can end): the peer goes away first
 		peer.Stop()
 		peerStopped = true
 	}
@@ -413,7 +418,7 @@ func c04Run(u *vfUnit) {
 	r := u.Rng
 	scs := c04Scenarios()
 	sc := scs[u.Index%len(scs)]
-	kind := []string{"s2c-eof", "s2c-error", "c2s-reset", "c2s-writefail", "c2s-reset-ioEOF", "c2s-writefail-ioEOF", "s2c-eof-writer-survives", "s2c-closed-pipe"}[(u.Index/len(scs))%8]
+	kind := []string{"s2c-eof", "s2c-error", "c2s-reset", "c2s-writefail", "c2s-reset-ioEOF", "c2s-writefail-ioEOF", "s2c-eof-writer-survives", "s2c-closed-pipe", "c2s-writefail-reader-survives"}[(u.Index/len(scs))%9]
 	u.SetAdd("scenarios", sc.name)
 	dry := c04RunOnce(u, sc, nil, r.Uint64())
 	label0 := sc.name + "/no-fault"
